@@ -25,12 +25,12 @@ type recPlan struct {
 
 // snapshot kinds
 const (
-	skSnapshot = iota // Collector.Snapshot()
-	skReset           // Collector.SnapshotAndReset()
-	skAPIGet          // GET /servers/s/stats
-	skAPIClear        // GET /servers/s/stats?clear
-	skAPIClearTrue    // GET /servers/s/stats?clear=true
-	skAPIClearFalse   // GET /servers/s/stats?clear=false
+	skSnapshot      = iota // Collector.Snapshot()
+	skReset                // Collector.SnapshotAndReset()
+	skAPIGet               // GET /servers/s/stats
+	skAPIClear             // GET /servers/s/stats?clear
+	skAPIClearTrue         // GET /servers/s/stats?clear=true
+	skAPIClearFalse        // GET /servers/s/stats?clear=false
 	nSnapKinds
 )
 
